@@ -16,7 +16,7 @@ INV = ["NoCrash", "AtMostOnce", "DoneMeansAll", "RaiseMeansLost", "TwoSubmission
 
 
 def model_check(chk):
-    base = dict(N=3, Retries=1, UseBackups=True, BatchSize=2, MinTasks=2, FixStartTimes=True, FixTwins=True)
+    base = dict(N=3, Retries=1, UseBackups=True, BatchSize=2, MinTasks=2, FixStartTimes=True, FixTwins=True, KeepPairing=True)
     jobs = [("N3R1B2", base, True),
             ("N3R0B0", dict(base, Retries=0, BatchSize=0), True),
             ("N3R2B3", dict(base, Retries=2, BatchSize=3, MinTasks=1), True),
@@ -38,6 +38,9 @@ def model_check(chk):
     # vacuity: the pre-fix designs must violate
     r = run_tlc("MapUnordered", cfg=dict(spec="Spec", constants=dict(base, FixTwins=False), invariants=INV, deadlock=False))
     chk.add_tlc("MapUnordered/switch-FixTwins=FALSE", r, expect_violation=True)
+    r = run_tlc("MapUnordered", cfg=dict(spec="Spec", constants=dict(base, N=3, Retries=0, BatchSize=0, MinTasks=1, KeepPairing=False),
+                                         invariants=INV, deadlock=False))
+    chk.add_tlc("MapUnordered/switch-KeepPairing=FALSE", r, expect_violation="TwoSubmissions")
     r = run_tlc("MapUnordered", cfg=dict(spec="Spec", constants=dict(base, N=4, MinTasks=1, FixStartTimes=False),
                                          invariants=INV, deadlock=False))
     chk.add_tlc("MapUnordered/switch-FixStartTimes=FALSE", r, expect_violation="NoCrash")
@@ -261,7 +264,7 @@ def mechanism_drift(chk, rng):
         try:
             tf = os.path.join(d, "t.json")
             _json.dump(traces, open(tf, "w"))
-            consts = dict(g, FixStartTimes=True, FixTwins=True)
+            consts = dict(g, FixStartTimes=True, FixTwins=True, KeepPairing=True)
             r = run_tlc("MapUnorderedTrace", cfg=dict(init="TInit", next_="TNext", constants=consts,
                                                       invariants=INV + ["Explained"], deadlock=False),
                         workers=1, timeout=1800, env={"TRACE_FILE": tf})
